@@ -56,6 +56,7 @@ def run(tier, seed, argv):
                       presence="one symbolic boolean per parameter and step: all pattern sequences", hyperparameters="symbolic, generic equality regime (no hyperparameter at a special value)")
     rep.assumptions = ["generic equality regime only (special values 0/1/-1 of the hyperparameters are covered by C01)", "real arithmetic; dtypes are tags",
                        "masked-list alignment reads internal attributes (_masked_*/_local_*): a renamed internal is a harness error, not a violation"]
+    rep.validate_standin(6 if tier == "quick" else 24)
     rep.absorb("presence", par.run_jobs(jobs, chunk=6))
     return rep.finish("checks.c04")
 
